@@ -97,19 +97,34 @@ func Main(defs []PropDef) {
 			}()
 			d.Run(c)
 		}()
-		if prog.Inlined != nil && c.Open() {
-			// second view: the same rules on the tree with new helpers expanded in place
-			c2 := core.NewCtx(prog.Inlined, d.ID, *tier)
-			func() {
-				defer func() {
-					if r := recover(); r != nil {
-						c2.Undecidedf("panic", d.ID, 0, "checker panicked on the expanded program: %v", r)
-					}
+		if prog.Inlined != nil {
+			// further views: the same rules on the equivalent programs produced by the
+			// normalisation pipeline (last stage first, then the intermediate ones)
+			views := append([]*core.Program{prog.Inlined}, prog.Views...)
+			var alts []*core.Ctx
+			for _, view := range views {
+				if !c.Open() {
+					break
+				}
+				c2 := core.NewCtx(view, d.ID, *tier)
+				func() {
+					defer func() {
+						if r := recover(); r != nil {
+							c2.Undecidedf("panic", d.ID, 0, "checker panicked on the expanded program: %v", r)
+						}
+					}()
+					d.Run(c2)
 				}()
-				d.Run(c2)
-			}()
-			if n := c.AdoptPassesKnown(c2, known); n > 0 {
-				c.Note("%d obligations discharged on the helper-expanded view of the tree", n)
+				if n := c.AdoptPassesKnown(c2, known); n > 0 {
+					c.Note("%d obligations discharged on a normalised view of the tree (new helpers expanded in place)", n)
+				}
+				alts = append(alts, c2)
+			}
+			if c.Open() && len(alts) > 0 {
+				// what no view could discharge and the last stage decides as a violation
+				if n := c.AdoptViolations(alts[0]); n > 0 {
+					c.Note("%d undecided obligations are violations on the fully normalised view", n)
+				}
 			}
 		}
 		if *tier == "thorough" && os.Getenv("RS_NO_SELFTEST") == "" {
